@@ -1,14 +1,23 @@
 package main
 
 import (
+	"bytes"
 	"crypto"
+	"crypto/aes"
+	"crypto/cipher"
 	"crypto/ecdsa"
 	"crypto/ed25519"
 	"crypto/elliptic"
+	"crypto/hmac"
+	"crypto/rand"
 	"crypto/sha256"
+	"crypto/sha512"
+	"encoding/binary"
 	"encoding/base64"
 	"encoding/json"
 	"fmt"
+	"hash"
+	"math/big"
 	"strings"
 	"time"
 
@@ -36,6 +45,8 @@ import (
 	vdrkey "github.com/hyperledger/aries-framework-go/component/vdr/key"
 	"github.com/hyperledger/aries-framework-go/pkg/didcomm/transport"
 	"github.com/hyperledger/aries-framework-go/spi/kms"
+	gojose "github.com/go-jose/go-jose/v3"
+	"github.com/google/tink/go/hybrid/subtle"
 	"github.com/piprate/json-gold/ld"
 
 	"verifharness/c01env"
@@ -89,6 +100,7 @@ func newSyncWorld(thorough bool) *syncWorld {
 	sw.loader = loader
 
 	sw.envelopeSeeds(thorough)
+	sw.cbcSeeds()
 	sw.jwsSeeds()
 	sw.bbsSeeds(thorough)
 	sw.didKeySeeds()
@@ -209,6 +221,134 @@ func (s *syncWorld) envelopeSeeds(thorough bool) {
 				Targets: []Target{{"packager.UnpackMessage", unpack}}})
 		}
 	}
+}
+
+// cbcSeeds: JWEs an anoncrypt SENDER builds with the public crypto API: the content key is really wrapped for the
+// recipient (ECDH-ES), the content is AES-CBC encrypted under that key with padding of the sender's choice and the
+// HMAC tag is valid.  What the recipient's decrypter does with the padding is then reached behind the tag check.
+func (s *syncWorld) cbcSeeds() {
+	w := s.w
+	rcpt := w.Parties[1]
+
+	pk, err := rcpt.Packager("A256CBC512")
+	must(err)
+
+	unpack := func(in []byte) error {
+		_, e := pk.UnpackMessage(in)
+		return e
+	}
+
+	rk := w.NewKey(1, c01env.P256)
+	b64 := base64.RawURLEncoding.EncodeToString
+
+	build := func(encName string, macHash func() hash.Hash, tagSize int, cekLen int, plainBlocks []byte) []byte {
+		cek := make([]byte, cekLen)
+		_, e := rand.Read(cek)
+		must(e)
+
+		rpk := *rk.Pub
+		rpk.KID = rk.Ref("didkey")
+
+		wk, e := w.Parties[0].Crypto.WrapKey(cek, nil, nil, &rpk)
+		must(e)
+
+		c, e := subtle.GetCurve(wk.EPK.Curve)
+		must(e)
+
+		epk := jwk.JWK{JSONWebKey: gojose.JSONWebKey{Key: &ecdsa.PublicKey{Curve: c, X: new(big.Int).SetBytes(wk.EPK.X),
+			Y: new(big.Int).SetBytes(wk.EPK.Y)}}, Kty: wk.EPK.Type, Crv: wk.EPK.Curve}
+
+		epkJSON, e := epk.MarshalJSON()
+		must(e)
+
+		prot := map[string]interface{}{"enc": encName, "typ": transport.MediaTypeV2EncryptedEnvelope,
+			"cty": transport.MediaTypeV2PlaintextPayload, "kid": rpk.KID, "alg": wk.Alg, "epk": json.RawMessage(epkJSON),
+			"apu": b64(wk.APU), "apv": b64(wk.APV)}
+
+		pb, e := json.Marshal(prot)
+		must(e)
+
+		protB64 := b64(pb)
+		macKey, encKey := cek[:cekLen/2], cek[cekLen/2:]
+
+		iv := make([]byte, aes.BlockSize)
+		_, e = rand.Read(iv)
+		must(e)
+
+		blk, e := aes.NewCipher(encKey)
+		must(e)
+
+		ct := make([]byte, len(plainBlocks))
+		cipher.NewCBCEncrypter(blk, iv).CryptBlocks(ct, plainBlocks)
+
+		// tink EncryptThenAuthenticate: tag = MAC(aad || iv || ciphertext || bit length of aad as uint64)
+		aad := []byte(protB64)
+		m := hmac.New(macHash, macKey)
+		m.Write(aad)
+		m.Write(iv)
+		m.Write(ct)
+
+		var al [8]byte
+		binary.BigEndian.PutUint64(al[:], uint64(len(aad))*8) //nolint:gomnd
+		m.Write(al[:])
+
+		tag := m.Sum(nil)[:tagSize]
+
+		return []byte(strings.Join([]string{protB64, b64(wk.EncryptedCEK), b64(iv), b64(ct), b64(tag)}, "."))
+	}
+
+	payload := []byte(`{"@id":"m1","@type":"https://didcomm.org/x/1.0/y","pad":"0123"}`)
+	pkcs := func(p []byte) []byte {
+		n := aes.BlockSize - len(p)%aes.BlockSize
+		return append(append([]byte{}, p...), bytes.Repeat([]byte{byte(n)}, n)...)
+	}
+
+	// the construction is right when the honest padding unpacks
+	must(unpack(build("A256CBC-HS512", sha512.New, 32, 64, pkcs(payload))))
+
+	type variant struct {
+		name  string
+		plain []byte
+	}
+
+	var vs []variant
+
+	for _, last := range []byte{0, 1, 15, 16, 17, 31, 32, 33, 48, 64, 65, 128, 255} {
+		for _, blocks := range []int{1, 2, 5} {
+			p := bytes.Repeat([]byte{'a'}, blocks*aes.BlockSize)
+			p[len(p)-1] = last
+			vs = append(vs, variant{fmt.Sprintf("last%d.blocks%d", last, blocks), p})
+
+			// the whole text made of the pad byte (a suffix test of any length succeeds)
+			vs = append(vs, variant{fmt.Sprintf("all%d.blocks%d", last, blocks), bytes.Repeat([]byte{last}, blocks*aes.BlockSize)})
+		}
+	}
+
+	vs = append(vs, variant{"empty", nil})
+
+	encs := []struct {
+		name string
+		h    func() hash.Hash
+		tag  int
+		cek  int
+	}{{"A256CBC-HS512", sha512.New, 32, 64}, {"A128CBC-HS256", sha256.New, 16, 32}}
+
+	for _, e := range encs {
+		for _, v := range vs {
+			s.add(&Seed{Name: "env.cbc." + e.name + "." + v.name, Layer: "E1", Kind: "fixed",
+				Wire: build(e.name, e.h, e.tag, e.cek, v.plain), Targets: []Target{{"packager.UnpackMessage", unpack}}})
+		}
+	}
+
+	// an honest CBC-HMAC envelope of the packer for the closure
+	pp, err := w.Parties[0].Packer("jwe-anon", "A256CBC512")
+	must(err)
+
+	wire, err := pp.Pack(transport.MediaTypeV2PlaintextPayload, payload, nil, [][]byte{rk.RecipientArg("didkey")})
+	must(err)
+	must(unpack(wire))
+	s.add(&Seed{Name: "env.jwe-anon.P256.cbc.n1", Layer: "E1", Kind: "json", Wire: wire,
+		Targets: []Target{{"packager.UnpackMessage", unpack}}})
 }
 
 // ---------- E4: JWS / JWT ----------
@@ -591,6 +731,22 @@ const didDocJSON = `{"@context":["https://www.w3.org/ns/did/v1","https://w3id.or
 "created":"2019-09-23T14:16:59Z","updated":"2019-09-23T14:16:59Z",
 "proof":[{"type":"Ed25519Signature2018","created":"2019-09-23T14:16:59Z","creator":"did:example:21tDAKCERh95uGgKbJNHYp#key-1","proofValue":"6mdES87erjP5r1qCSRW__otj-A_Rj0YgRO7XU_0Amhwdfa7AAmtGUSFGflR_fZqPYrY9ceLRVQCJ49s0q7-LBA","domain":"d","nonce":"MDEyMzQ1Njc4OQ"}]}`
 
+const didDocV011 = `{"@context":["https://w3id.org/did/v0.11"],"id":"did:example:21tDAKCERh95uGgKbJNHYp",
+"publicKey":[{"id":"did:example:21tDAKCERh95uGgKbJNHYp#key-1","type":"Ed25519VerificationKey2018","owner":"did:example:21tDAKCERh95uGgKbJNHYp","publicKeyBase58":"H3C2AVvLMv6gmMNam3uVAjZpfkcJCwDwnZn6z3wXmqPV"},
+{"id":"did:example:21tDAKCERh95uGgKbJNHYp#key-2","type":"JwsVerificationKey2020","owner":"did:example:21tDAKCERh95uGgKbJNHYp","publicKeyJwk":@JWK@}],
+"authentication":[{"type":"Ed25519SignatureAuthentication2018","publicKey":"did:example:21tDAKCERh95uGgKbJNHYp#key-1"},"did:example:21tDAKCERh95uGgKbJNHYp#key-2"],
+"service":[{"id":"did:example:21tDAKCERh95uGgKbJNHYp#inbox","type":"SocialWebInboxService","serviceEndpoint":"https://social.example.com/83hfh37dj","spamCost":{"amount":"0.50","currency":"USD"}}],
+"created":"2002-10-10T17:00:00Z",
+"proof":[{"type":"Ed25519Signature2018","created":"2019-09-23T14:16:59Z","creator":"did:example:21tDAKCERh95uGgKbJNHYp#key-1","signatureValue":"6mdES87erjP5r1qCSRW__otj-A_Rj0YgRO7XU_0Amhwdfa7AAmtGUSFGflR_fZqPYrY9ceLRVQCJ49s0q7-LBA","domain":"d","nonce":"MDEyMzQ1Njc4OQ"}]}`
+
+const didDocV2019 = `{"@context":"https://www.w3.org/2019/did/v1","id":"did:example:21tDAKCERh95uGgKbJNHYp",
+"publicKey":[{"id":"did:example:21tDAKCERh95uGgKbJNHYp#key-1","type":"Ed25519VerificationKey2018","controller":"did:example:21tDAKCERh95uGgKbJNHYp","publicKeyBase58":"H3C2AVvLMv6gmMNam3uVAjZpfkcJCwDwnZn6z3wXmqPV"},
+{"id":"#key-2","type":"JwsVerificationKey2020","controller":"did:example:21tDAKCERh95uGgKbJNHYp","publicKeyJwk":@JWK@}],
+"authentication":[{"type":"Ed25519SignatureAuthentication2018","publicKey":["did:example:21tDAKCERh95uGgKbJNHYp#key-1","#key-2"]},"did:example:21tDAKCERh95uGgKbJNHYp#key-1"],
+"assertionMethod":[{"type":"Ed25519SignatureAuthentication2018","publicKey":["#key-2"]}],
+"service":[{"id":"did:example:21tDAKCERh95uGgKbJNHYp#didcomm","type":"IndyAgent","priority":0,"recipientKeys":["H3C2AVvLMv6gmMNam3uVAjZpfkcJCwDwnZn6z3wXmqPV"],"routingKeys":["JhNWeSVLMYccCk7iopQW4guaSJTojqpMEELgSLhKwRr"],"serviceEndpoint":"https://agent.example.com/"}],
+"created":"2019-09-23T14:16:59Z"}`
+
 const pdJSON = `{"id":"pd1","input_descriptors":[{"id":"d1","group":["A"],"schema":[{"uri":"https://www.w3.org/2018/credentials#VerifiableCredential"}],
 "constraints":{"limit_disclosure":"required","fields":[{"path":["$.credentialSubject.degree.name"],"filter":{"type":"string","pattern":"Bach"}}]}}],
 "submission_requirements":[{"rule":"pick","count":1,"from":"A"}]}`
@@ -740,6 +896,67 @@ func (s *syncWorld) docSeeds() {
 
 	s.add(&Seed{Name: "presexch.definition", Layer: "X", Kind: "json", Wire: []byte(pdJSON),
 		Targets: []Target{{"presexch.ValidateSchema+CreateVP", pdRun}}})
+
+	// legacy / alternative member forms of DID documents (v0.11 and 2019 contexts: publicKey arrays, relationship
+	// entries that name keys through a publicKey member)
+	for name, doc := range map[string]string{"v011": didDocV011, "v2019": didDocV2019} {
+		b := []byte(strings.Replace(doc, "@JWK@", string(docJB), 1))
+		must(parseDoc(b))
+		s.add(&Seed{Name: "diddoc.legacy." + name, Layer: "X", Kind: "json", Wire: b,
+			Targets: []Target{{"did.ParseDocument", parseDoc}}})
+	}
+
+	// a derived-proof credential: the proof type whose verifier takes the proof's nonce
+	var bbsVC map[string]interface{}
+
+	must(json.Unmarshal(signed, &bbsVC))
+
+	if pm, ok := bbsVC["proof"].(map[string]interface{}); ok {
+		pm["type"] = "BbsBlsSignatureProof2020"
+		pm["nonce"] = "bm9uY2U="
+		pm["proofValue"] = "AAAA"
+		delete(pm, "jws")
+		bbsVC["@context"] = append(bbsVC["@context"].([]interface{}), "https://w3id.org/security/bbs/v1")
+
+		bb, e := json.Marshal(bbsVC)
+		must(e)
+
+		s.add(&Seed{Name: "vc.bbsproof", Layer: "X", Kind: "json", Wire: bb, Targets: []Target{
+			{"verifiable.ParseCredential(default suites)", func(in []byte) error {
+				_, e2 := verifiable.ParseCredential(in, verifiable.WithJSONLDDocumentLoader(loader),
+					verifiable.WithPublicKeyFetcher(fetcher))
+				return e2
+			}}}})
+	}
+
+	// a presentation the framework built for the definition: presentation_submission / descriptor_map
+	var pd presexch.PresentationDefinition
+
+	must(json.Unmarshal([]byte(strings.Replace(pdJSON, `"limit_disclosure":"required",`, "", 1)), &pd))
+
+	if pvp, e := pd.CreateVP([]*verifiable.Credential{vc}, loader, verifiable.WithJSONLDDocumentLoader(loader),
+		verifiable.WithDisabledProofCheck()); e == nil {
+		pvb, e2 := json.Marshal(pvp)
+		must(e2)
+
+		match := func(in []byte) error {
+			p, e3 := verifiable.ParsePresentation(in, verifiable.WithPresJSONLDDocumentLoader(loader),
+				verifiable.WithPresDisabledProofCheck())
+			if e3 != nil {
+				return e3
+			}
+
+			_, e3 = pd.Match([]*verifiable.Presentation{p}, loader, presexch.WithCredentialOptions(
+				verifiable.WithJSONLDDocumentLoader(loader), verifiable.WithDisabledProofCheck()))
+
+			return e3
+		}
+
+		s.add(&Seed{Name: "presexch.submission", Layer: "X", Kind: "json", Wire: pvb,
+			Targets: []Target{{"presexch.Match", match}}})
+	} else {
+		panic(fmt.Sprintf("c03 setup: presexch CreateVP: %v", e))
+	}
 
 	// JWK
 	ecK, err := ecdsa.GenerateKey(elliptic.P256(), detRand("c03-jwk"))
